@@ -27,6 +27,7 @@ def gen_foreign(rng):
     exp = []
     line = [0]
     sites = []     # (index into out of header, index of content, record index, kind, info)
+    doc = []       # the document as a list of sections (for Spec.render / Spec.reading of the Lean model)
 
     def blank():
         return b''.join(rng.choice([hdrnl, b'  ' + hdrnl, b'\t' + hdrnl]) for _ in range(rng.choice([0, 0, 0, 1, 2])))
@@ -35,7 +36,9 @@ def gen_foreign(rng):
         items = list(opts.items())
         rng.shuffle(items)
         s = b'#' + sid.encode() + b':' + ((b' ' + b', '.join(('%s=%s' % kv).encode() for kv in items)) if items else b'')
-        out.append(blank() + s + hdrnl)
+        bl = blank()
+        out.append(bl + s + hdrnl)
+        doc.append({'sid': sid, 'items': [(str(k), str(v)) for k, v in items], 'blank': bl, 'content': b''})
         conv = dict((k, specdoc.int_or_str(v)) for k, v in opts.items())
         rec = {'id': sid, 'line': line[0], 'options': conv, 'kind': 'container', 'value': None}
         exp.append(rec)
@@ -94,6 +97,7 @@ def gen_foreign(rng):
         rec['value'] = value
         sites.append((len(out) - 1, len(out), len(exp) - 1, kind, {'nl': nl, 'enc': enc}))
         out.append(raw)
+        doc[-1]['content'] = raw
         line[0] += nlines
 
     menc = rng.choice([None] + ENC)
@@ -120,7 +124,21 @@ def gen_foreign(rng):
             if rng.random() < 0.6:
                 content('...diff', 'diff', None)
     out.append(blank())
+    gen_foreign.last_doc = {'crlf': hdrnl == b'\r\n', 'sections': doc}
     return out, exp, sites
+
+
+def doc_request(chunk, d):
+    """the `specread` request of the Lean driver for a document"""
+    toks = []
+    for sec in d['sections']:
+        sid = sec['sid']
+        level = len(sid) - len(sid.lstrip('.'))
+        opts = ','.join('%s:%s' % (k.encode().hex(), v.encode().hex()) for k, v in sec['items']) or '-'
+        lines = sec['blank'].split(b'\n')[:-1] if sec['blank'] else []
+        blank = ','.join(l.hex() for l in lines) if lines else '-'
+        toks.append('%d.%s;%s;%s;%s' % (level, sid.lstrip('.'), opts, blank, sec['content'].hex() or '-'))
+    return 'specread %d %d %s' % (chunk, 1 if d['crlf'] else 0, ' '.join(toks))
 
 
 DEFECTS = ['version-unsupported', 'version-missing', 'length-missing', 'no-trailing-newline', 'format-not-json',
@@ -269,6 +287,35 @@ class Spec(object):
         return {'data': case['data'][:400].hex(), 'defect': case['defect']}
 
 
+class SpecDoc(Spec):
+    """second stream: the well-formed documents themselves, through the Lean specification:
+    `Spec.render` must give the generator's bytes, `Spec.reading` and the reader model must
+    both give what the real reader yields (C03_file, validated on the implementation)"""
+
+    def cases(self, ctx, budget, rng):
+        nfiles, _ = budget
+        for _ in range(nfiles):
+            out, exp, sites = gen_foreign(rng)
+            yield {'data': b''.join(out[:-1]), 'doc': gen_foreign.last_doc, 'want': show_expected(exp),
+                   'defect': None, 'stop': None, 'lines': None}
+
+    def corpus(self):
+        return []
+
+    def request(self, case):
+        return doc_request(int(self.tables['chunk']) or 96, case['doc'])
+
+    def impl(self, case):
+        r = adapters.impl_read(case['data'])
+        return '%s | %s | %s' % (common.enc_bytes(case['data']), r, r)
+
+    def model(self, case, resp):
+        return resp
+
+    def sample(self, case):
+        return {'data_head': case['data'][:80].hex(), 'sections': len(case['doc']['sections'])}
+
+
 def explore(ctx, escalate=False, hint=None):
     if ctx.run.tier == 'thorough':
         budget = (30000, 6)
@@ -280,8 +327,17 @@ def explore(ctx, escalate=False, hint=None):
             'absent, blank / whitespace-only lines, CRLF header lines, compact / 2-space / canonical JSON, indent 0-9, '
             '8 codec spellings, nested encodings) each with %d single-defect mutations from the catalogue %s; three-way: '
             'implementation / Lean model / specification reading (id, level, logical line, typed options, content); '
-            'distinct by file bytes' % (budget[0], budget[1], DEFECTS))
-    return base.explore_generic(ctx, Spec(ctx.tables), budget, rule, chunk=1500)
+            'distinct by file bytes; the well-formed documents additionally through the Lean specification: Spec.render '
+            'against the generated bytes, Spec.reading and the reader model against the real reader'
+            % (budget[0], budget[1], DEFECTS))
+    r1 = base.explore_generic(ctx, Spec(ctx.tables), budget, rule, chunk=1500)
+    r2 = base.explore_generic(ctx, SpecDoc(ctx.tables), budget, rule, chunk=1500)
+    r1['evaluations'] += r2['evaluations']
+    r1['disagreements'] += r2['disagreements']
+    r1['violations'] += r2['violations']
+    for k, v in r2['distribution'].items():
+        r1['distribution']['specdoc_' + k] = v
+    return r1
 
 
 def classify(v):
